@@ -9,6 +9,12 @@ use crate::state::State;
 pub(crate) unsafe fn cc_alloc<T: Trace + 'static>(layout: Layout, state: &State) -> NonNull<CcBox<T>> {
     state.record_allocation(layout);
     match NonNull::new(alloc(layout) as *mut CcBox<T>) {
+        #[cfg(rust_cc_verif)]
+        Some(ptr) => {
+            crate::verif_hooks::note_alloc(crate::verif_hooks::KIND_BOX, ptr.as_ptr() as *mut u8, layout.size(), layout.align());
+            ptr
+        },
+        #[cfg(not(rust_cc_verif))]
         Some(ptr) => ptr,
         None => handle_alloc_error(layout),
     }
@@ -29,6 +35,12 @@ pub(crate) unsafe fn cc_dealloc<T: ?Sized + Trace + 'static>(
 pub(crate) unsafe fn alloc_other<T>() -> NonNull<T> {
     let layout = Layout::new::<T>();
     match NonNull::new(alloc(layout) as *mut T) {
+        #[cfg(rust_cc_verif)]
+        Some(ptr) => {
+            crate::verif_hooks::note_alloc(crate::verif_hooks::KIND_META, ptr.as_ptr() as *mut u8, layout.size(), layout.align());
+            ptr
+        },
+        #[cfg(not(rust_cc_verif))]
         Some(ptr) => ptr,
         None => handle_alloc_error(layout),
     }
